@@ -14,7 +14,7 @@ import (
 	"google.golang.org/protobuf/proto"
 )
 
-func sp(s string) *string { return &s }
+func sp(s string) *string  { return &s }
 func u32(x uint32) *uint32 { return &x }
 func u64(x uint64) *uint64 { return &x }
 func i64(x int64) *int64   { return &x }
